@@ -550,7 +550,8 @@ func checkTemplate(t ev.TB, test string, tp *Template) {
 		ev.Fail(t, test, payload{Kind: "template", Template: tp, Source: src}, "%s", failText(v.Fail, src))
 		return
 	}
-	nontrivial := tp.N >= 1025 || tp.Collect > 0
+	// DESIGN.md: non-trivial = depth >= 1025 or a closure captured a parameter
+	nontrivial := tp.N >= 1025 || (tp.Collect > 0 && tp.Cap.K != "t" && tp.N >= 1)
 	ev.Case(src, nontrivial, templateClasses(tp, v)...)
 	if nontrivial && ev.WantSample() && len(src) < 1500 {
 		ev.Sample(map[string]string{"script": src, "zone": v.Zone, "outcome": v.Outcome})
@@ -1064,7 +1065,10 @@ func fibTemplate(ctx string, place string, n int64) *Template {
 	return tp
 }
 
-func TestContextTable(t *testing.T) {
+// contextTable runs part `part` of `parts` of the context x placement x depth
+// table (the parts are separate plain tests so that the driver runs them side
+// by side).
+func contextTable(t *testing.T, part, parts int) {
 	var names []string
 	for c := range ctxTable {
 		names = append(names, c)
@@ -1072,9 +1076,12 @@ func TestContextTable(t *testing.T) {
 	sort.Strings(names)
 	places := []string{"global", "nested", "nested2", "mapfield", "alias", "arg"}
 	run := func(tp *Template) {
-		checkTemplate(t, "TestContextTable", tp)
+		checkTemplate(t, t.Name(), tp)
 	}
-	for _, c := range names {
+	for ci, c := range names {
+		if ci%parts != part {
+			continue
+		}
 		info := ctxTable[c]
 		for pi, place := range places {
 			for _, n := range tableDepths {
@@ -1138,7 +1145,21 @@ func TestContextTable(t *testing.T) {
 			}
 		}
 	}
-	// closures capturing a parameter in every iteration, in tail contexts
+}
+
+func TestContextTable0(t *testing.T) { contextTable(t, 0, 6) }
+func TestContextTable1(t *testing.T) { contextTable(t, 1, 6) }
+func TestContextTable2(t *testing.T) { contextTable(t, 2, 6) }
+func TestContextTable3(t *testing.T) { contextTable(t, 3, 6) }
+func TestContextTable4(t *testing.T) { contextTable(t, 4, 6) }
+func TestContextTable5(t *testing.T) { contextTable(t, 5, 6) }
+
+// TestClosureTable: closures capturing a parameter in every iteration, in
+// tail contexts, at the boundary depths.
+func TestClosureTable(t *testing.T) {
+	run := func(tp *Template) {
+		checkTemplate(t, t.Name(), tp)
+	}
 	for _, collect := range []int{1, 2} {
 		for _, place := range []string{"global", "nested"} {
 			for _, n := range []int64{0, 1, 2, 1023, 1024, 1025, 2048, 10000, 100000} {
@@ -1162,7 +1183,14 @@ func TestContextTable(t *testing.T) {
 			}
 		}
 	}
-	// parameter counts 1..6, variadic last parameter, in the basic tail context
+}
+
+// TestParamTable: parameter counts 1..6 and a variadic last parameter
+// (listed, spread, forwarded) in the basic tail context, rotating the values.
+func TestParamTable(t *testing.T) {
+	run := func(tp *Template) {
+		checkTemplate(t, t.Name(), tp)
+	}
 	for fixed := 0; fixed <= 5; fixed++ {
 		for _, varN := range []int{-1, 0, 2} {
 			for spread := 0; spread <= 2; spread++ {
